@@ -1,0 +1,52 @@
+// Verification-only (`--cfg metrique_verif_loom`): the counter / gauge cell of the metrics.rs
+// bridge on a scheduler-visible atomic, with the same `CounterFn` / `GaugeFn` behaviour the
+// `metrics` crate implements for `std::sync::atomic::AtomicU64`.
+#![allow(missing_docs)]
+
+use metrique_writer_core::__verif::loom::sync::atomic::{AtomicU64, Ordering};
+
+pub struct VAtomicU64(AtomicU64);
+
+impl VAtomicU64 {
+    pub fn new(v: u64) -> Self {
+        VAtomicU64(AtomicU64::new(v))
+    }
+}
+
+impl std::ops::Deref for VAtomicU64 {
+    type Target = AtomicU64;
+    fn deref(&self) -> &AtomicU64 {
+        &self.0
+    }
+}
+
+#[cfg(feature = "metrics-rs-024")]
+impl metrics_024::CounterFn for VAtomicU64 {
+    fn increment(&self, value: u64) {
+        let _ = self.0.fetch_add(value, Ordering::Release);
+    }
+    fn absolute(&self, value: u64) {
+        let _ = self.0.fetch_max(value, Ordering::AcqRel);
+    }
+}
+
+#[cfg(feature = "metrics-rs-024")]
+impl metrics_024::GaugeFn for VAtomicU64 {
+    fn increment(&self, value: f64) {
+        let _ = self
+            .0
+            .fetch_update(Ordering::AcqRel, Ordering::Relaxed, |curr| {
+                Some((f64::from_bits(curr) + value).to_bits())
+            });
+    }
+    fn decrement(&self, value: f64) {
+        let _ = self
+            .0
+            .fetch_update(Ordering::AcqRel, Ordering::Relaxed, |curr| {
+                Some((f64::from_bits(curr) - value).to_bits())
+            });
+    }
+    fn set(&self, value: f64) {
+        let _ = self.0.swap(value.to_bits(), Ordering::AcqRel);
+    }
+}
